@@ -115,6 +115,16 @@ def run(rec, cfg):
         rec.arm("start:" + src)
         drive(root, rules=use, big=big)
         if D._small(root, 25) and not big:
+            # every node as the START of a search (a leaf too: balanced move applies to leaves): the
+            # first-match search and the full listing are decided against each other by the monitor
+            for start in S.nodes_preorder(root):
+                for label, rule in use:
+                    try:
+                        rule.find_node(start)
+                        rule.find_nodes(start)
+                    except Exception:
+                        pass
+            rec.arm("find:every-node-as-search-start")
             # the rules as in-place operations: listings made on one side only, two steps in a row on
             # the same objects, a node taken from the listing made before the last step
             if S.kind(root) == "Equal":
